@@ -383,15 +383,17 @@ impl<'a> PointIter<'a> {
     fn advance_flags(&mut self) -> Option<()> {
         if self.flag_repeats == 0 {
             self.cur_flags = SimpleGlyphFlags::from_bits_truncate(self.flags.read().ok()?);
+            // The number of additional times the flag applies; this can be
+            // as large as 255 so we can't store the total count in a u8.
             self.flag_repeats = self
                 .cur_flags
                 .contains(SimpleGlyphFlags::REPEAT_FLAG)
                 .then(|| self.flags.read().ok())
                 .flatten()
-                .unwrap_or(0)
-                + 1;
+                .unwrap_or(0);
+        } else {
+            self.flag_repeats -= 1;
         }
-        self.flag_repeats -= 1;
         Some(())
     }
 
